@@ -100,6 +100,7 @@ struct Prog {
     ModCfg mods[MAX_MODS];
     std::vector<Op> ops;
     std::string profile; // informational
+    int strict = 0;      // 1: known-finding exclusions off (used by the known-finding probes)
 };
 
 inline void op_text(std::ostringstream &o, const char *kw, const Op &op) {
@@ -110,6 +111,7 @@ inline std::string to_text(const Prog &p) {
     std::ostringstream o;
     o << "actor1\n";
     if (!p.profile.empty()) o << "profile " << p.profile << "\n";
+    if (p.strict) o << "strict " << p.strict << "\n";
     o << "nmods " << p.nmods << "\n";
     for (int i = 0; i < p.nmods; i++) o << "mod " << i << " hooks " << p.mods[i].hooks << "\n";
     for (int i = 0; i < p.nmods; i++)
@@ -146,6 +148,7 @@ inline bool from_text(const std::string &text, Prog &p) {
         std::string w; ls >> w;
         if (!magic) { if (w != "actor1") return false; magic = true; continue; }
         if (w == "profile") { ls >> p.profile; }
+        else if (w == "strict") { ls >> p.strict; }
         else if (w == "nmods") { ls >> p.nmods; if (p.nmods < 0 || p.nmods > MAX_MODS) return false; }
         else if (w == "mod") { int i; std::string h; ls >> i >> h; if (i < 0 || i >= MAX_MODS) return false; ls >> p.mods[i].hooks; }
         else if (w == "script") {
